@@ -164,6 +164,9 @@ func ModelCheckingCoverage(st *Stats, extra map[string]any) map[string]any {
 		"outcomes":                      st.Outcomes,
 		"samples":                       st.Samples,
 	}
+	for k, v := range st.Counters {
+		c[k] = v
+	}
 	if st.CapHit != "" {
 		c["cap_hit"] = st.CapHit
 		c["frontier_left"] = st.Frontier
